@@ -223,13 +223,13 @@ def run_shard(spec, rng, ctx):
     end = C.budget(spec)
     i = 0
     t_agree = 0.0
-    t0 = time.time()
-    while time.time() < end:
+    t0 = C.now()
+    while C.now() < end:
         # a third of the budget goes to the agreement pool
-        if t_agree < (time.time() - t0) * 0.35:
-            t = time.time()
+        if t_agree < (C.now() - t0) * 0.35:
+            t = C.now()
             agreement(draw_agreement(rng), rng, ctx)
-            t_agree += time.time() - t
+            t_agree += C.now() - t
             continue
         base = draw_base(rng, i)
         i += 1
